@@ -173,14 +173,14 @@ end
 
 /-- **the image length bounds the parser's recursion**: `costL t + 1 ≤ |img|` -/
 theorem cost_le_image (P : Params) (hP : P.Ok) (o : POpts) (S : LSchema) (t : List DNode) (img : Bytes)
-    (hp : printLyb P o S t = some img) : costL t + 1 ≤ img.length := by
-  simp only [printLyb] at hp
+    (hp : printLybW P o S t = some img) : costL t + 1 ≤ img.length := by
+  simp only [printLybW] at hp
   split at hp
   · simp at hp
   · rename_i ops hops
-    have hnest := docOps_wellNested o S t ops hops
+    have hnest := docOpsW_wellNested o S t ops hops
     have hle := payLen_le_image P hP ops hnest img hp
-    obtain ⟨x1, y1, hx1, hy1, rfl⟩ := cat_eq_some hops
+    obtain ⟨x1, y1, hx1, hy1, rfl⟩ := cat_eq_some (by simpa only [docOpsW, docAround] using hops)
     obtain ⟨x2, y2, _, hy2, rfl⟩ := cat_eq_some hy1
     obtain ⟨x3, y3, _, hy3, rfl⟩ := cat_eq_some hy2
     obtain ⟨x4, y4, hx4, hy4, rfl⟩ := cat_eq_some hy3
